@@ -80,6 +80,9 @@ FIXED = [
  ("C10", "e224a00", "scanner->last_error_string was never reset: a later unrelated failure on a reused scanner was attributed to the string of an earlier scan"),
  ("C20", "7920122", "an external variable named like a built-in module that is not imported (hash, time, math, ...) was destroyed at the end of the first scan: the next scan on the same scanner aborted on assert(r1.o != NULL) (`yara -d hash=1 rules dir`)"),
  ("C20", "43aa735", "the compile-time value of `a >> b` was computed with <<: `$a at (42 >> 3)` never matched although the same expression over an integer external (value unknown at compile time) did"),
+ ("C20", "f24e2a3", "`-d name=<integer>` was converted with atoi(): values beyond 32 bits were truncated (`-d x=4294967396` defined 100) for yara, yarac and `yara -C -d` alike"),
+ ("C18", "23bf65b", "directory scans skipped every symbolic link whose target starts with `..` (two-byte readlink buffer), although the same path scanned as a single file follows the link"),
+ ("C18", "2ace7fc", "warnings and console.log lines were printed outside the output lock: with several threads they landed inside another thread's rule line, between it and its string-match lines, and inside `error scanning <file>: <reason>` messages"),
  ("C18", "cli-culprit-fix", "yara CLI printed `string \"$x\" in rule \"r\" caused could not open file` for an unreadable file after an earlier file on the same thread had hit a limit"),
 ]
 
